@@ -1,4 +1,6 @@
 import SppModel
+import SppModel.Generated.LoopKernels
+import SppModel.Generated.MomentKernels
 /-!
 Line-protocol driver for the executable model (`lake env lean --run Driver.lean`).
 One request per line on stdin, one answer per line on stdout.  Unknown or
@@ -660,6 +662,47 @@ def stepC18 (ts : List String) : String :=
     | _, _, _, _, _, _ => "bad-op"
   | _ => "bad-op"
 
+
+/-! ### K — the GENERATED loop kernels (`Generated/LoopKernels.lean`, `Generated/MomentKernels.lean`) run on
+    concrete arrays: `K <kernel> <int params…> | <array> | <array> …`; answers the first `nout` cells -/
+
+def splitBar (ts : List String) : List (List String) :=
+  ts.foldr (fun t acc => if t == "|" then [] :: acc else match acc with
+    | [] => [[t]]
+    | g :: gs => (t :: g) :: gs) [[]]
+
+def arrQ (xs : List Rat) : Nat → Rat := let a := xs.toArray; fun k => a.getD k 0
+def arrN (xs : List Nat) : Nat → Nat := let a := xs.toArray; fun k => a.getD k 0
+def cells (n : Nat) (f : Nat → Rat) : String := s!"ok {showRats ((List.range n).map f)}"
+
+open SppModel.Generated.LoopKernels in
+def stepK (ts : List String) : String :=
+  match ts with
+  | name :: rest =>
+    match splitBar rest with
+    | ps :: arrs =>
+      match natList? ps, arrs.mapM ratList? with
+      | some ps, some arrs =>
+        let nat (a : List Rat) : List Nat := a.map (fun q => q.num.toNat)
+        match name, ps, arrs with
+        | "extract_tim", [C, T, idx, nout], [x, o] => cells nout (extract_tim_exec nout (arrQ x) (arrQ o) C T idx)
+        | "extract_bpass", [C, T, nout], [x, o] => cells nout (extract_bpass_exec nout (arrQ x) (arrQ o) C T)
+        | "mask_channels", [C, T, nout], [x, m, v] =>
+            cells nout (mask_channels_exec nout (arrQ x) (fun c => m.getD c 0 != 0) (v.getD 0 0) C T)
+        | "dedisperse", [md, C, T, idx, nout], [x, o, d] =>
+            cells nout (dedisperse_exec nout (arrQ x) (arrQ o) (arrN (nat d)) md C T idx)
+        | "invert_freq", [C, T, nout], [x] => cells nout (invert_freq_exec nout (arrQ x) C T)
+        | "subband", [md, C, S, T, nout], [x, o, d, c2s] =>
+            cells nout (subband_exec nout (arrQ x) (arrQ o) (arrN (nat d)) (arrN (nat c2s)) md C S T)
+        | "remove_zerodm", [C, T, nout], [x, o, bp, w] =>
+            cells nout (remove_zerodm_exec nout (arrQ x) (arrQ o) (arrQ bp) (arrQ w) C T)
+        | "downsample_1d", [f, len, nout], [x] => cells nout (downsample_1d_mean_exec nout (arrQ x) f len)
+        | "downsample_2d", [f1, f2, d1, d2, nout], [x] => cells nout (downsample_2d_mean_flat_exec nout (arrQ x) f1 f2 d1 d2)
+        | _, _, _ => "bad-op"
+      | _, _ => "bad-op"
+    | _ => "bad-op"
+  | _ => "bad-op"
+
 def step (line : String) : String :=
   match (line.trimAscii.toString.splitOn " ").filter (· ≠ "") with
   | "C03" :: rest => stepC03 rest
@@ -681,6 +724,7 @@ def step (line : String) : String :=
   | "C18" :: rest => stepC18 rest
   | "C04" :: rest => stepC04 rest
   | "C10" :: rest => stepC10 rest
+  | "K" :: rest => stepK rest
   | _ => "bad-op"
 
 partial def loop (h : IO.FS.Stream) (out : IO.FS.Stream) : IO Unit := do
